@@ -258,4 +258,29 @@ def sibling_rule(ctx, chk):
                               f"{who}_{m}: the expression for `{f}` is the {other} form with the operand `{what}` of a {opn} left out "
                               f"({other}: {S.show(ta if dw else tb)[:160]}; {who}: {S.show(tb if dw else ta)[:160]}): the two widths compute this flag differently", where)
             else:
-                chk.undecided_("C01.R8", unit, f"different formulations: byte {S.show(ta)[:100]} / word {S.show(tb)[:100]}")
+                sn = S.single_node_diff(ta, tb)
+                if sn:
+                    chk.violation("C01.R8", m, f"{f}-{sn[0]}-differs:{sn[1]}/{sn[2]}",
+                                  f"byte_{m} and word_{m} compute `{f}` from expressions that differ in exactly one {sn[0]} (byte: {sn[1]}, word: {sn[2]}) after width "
+                                  f"normalisation: one of the two is wrong", where_w)
+                else:
+                    chk.undecided_("C01.R8", unit, f"different formulations: byte {S.show(ta)[:100]} / word {S.show(tb)[:100]}")
+    # helpers that set flags one by one (inc, dec, neg): whole-function fingerprints
+    for m, d in sorted(S.sibling_pairs(P).items()):
+        if m in ("mul", "imul", "div", "idiv"):
+            continue  # the word forms use DX:AX: not copies of the byte forms (C03)
+        if S.flag_trees(d["byte"]) or S.flag_trees(d["word"]):
+            continue
+        r = S.compare_fingerprints(S.fingerprint(d["byte"]), S.fingerprint(d["word"]))
+        where = fn_where(d["word"])
+        if r[0] == "same":
+            chk.ok("C01.R8", f"{m}:fingerprint", f"{r[1]} conditions/flag calls/result expressions agree")
+        elif r[0] == "dropped":
+            _, kind, opn, operand, side = r
+            who = "word" if side == "b" else "byte"
+            chk.violation("C01.R8", f"{m}.{who[0]}", f"{kind}-drops-operand:{operand}", f"{who}_{m}: a {kind} expression is the other width's with `{operand}` of a {opn} left out", where)
+        elif r[0] == "node":
+            _, kind, what, x, y = r
+            chk.violation("C01.R8", m, f"{kind}-{what}-differs:{x}/{y}", f"byte_{m} and word_{m} differ in exactly one {what} of a {kind} expression (byte: {x}, word: {y})", where)
+        else:
+            chk.undecided_("C01.R8", f"{m}:fingerprint", "formulated differently")
